@@ -58,14 +58,10 @@ class Shuffle(pipes.Shuffle, EnvironmentFilter):
 
                 # np.corrcoef(R1,R2)
 
-            old_seed = self._seed
+            #the filter's own seed is left untouched so that overlapping and abandoned reads can't disturb each other
             new_seed = self._seed * 3.21 if self._seed is not None else self._seed
 
-            self._seed = new_seed
-            try:
-                yield from super().filter(interactions)
-            finally:
-                self._seed = old_seed
+            yield from CobaRandom(new_seed).shuffle(list(interactions),inplace=True)
 
         else:
             yield from super().filter(interactions)
